@@ -328,6 +328,7 @@ fn run_history(rng: &mut Rng, mode: &str, _k: usize) -> String {
         Text(usize, String, bool),
         Tick(u64, u64),
         Restart(bool),
+        Publish(usize),
     }
     let mut script: std::collections::VecDeque<Sc> = std::collections::VecDeque::new();
     if pool == 1 && rng.chance(1, 2) {
@@ -382,7 +383,39 @@ fn run_history(rng: &mut Rng, mode: &str, _k: usize) -> String {
         }
         script.push_back(Sc::Tick(1, 0));
     }
+    // a third one: two (or three) writers paused at once, a run that records them all as in flight, then the EARLIEST of
+    // them is published while the later ones stay paused, and a run that goes through reset_matches (empty pattern, or a
+    // rescoring edit) has to drop exactly the still-unpublished indices from the rebuilt list
+    else if rng.chance(1, 3) {
+        script.push_back(Sc::Op(0));
+        for _ in 0..(2 + rng.below(4)) {
+            script.push_back(Sc::Op(4));
+        }
+        let with_pat = rng.chance(1, 2);
+        if with_pat {
+            script.push_back(Sc::Text(0, ["f", "o", "b", "a"][rng.below(4) as usize].to_string(), false));
+        }
+        script.push_back(Sc::Tick(0, 0));
+        script.push_back(Sc::Op(8));
+        if rng.chance(1, 2) {
+            script.push_back(Sc::Op(4));
+        }
+        script.push_back(Sc::Op(8));
+        if rng.chance(1, 3) {
+            script.push_back(Sc::Op(8));
+        }
+        script.push_back(Sc::Tick(0, 0));
+        script.push_back(Sc::Publish(0));
+        if rng.chance(1, 3) {
+            script.push_back(Sc::Publish(0));
+        }
+        if with_pat {
+            script.push_back(Sc::Text(0, ["ba", "z", "o", "r"][rng.below(4) as usize].to_string(), false));
+        }
+        script.push_back(Sc::Tick(0, 0));
+    }
     let mut force_text: Option<(usize, String, bool)> = None;
+    let mut force_pub: Option<usize> = None;
     let mut force_tick: Option<(u64, u64)> = None;
     let mut force_clear: Option<bool> = None;
     for _ in 0..(nops + script.len()) {
@@ -397,6 +430,10 @@ fn run_history(rng: &mut Rng, mode: &str, _k: usize) -> String {
             Some(Sc::Tick(hold, k)) => {
                 force_tick = Some((hold, k));
                 15
+            }
+            Some(Sc::Publish(k)) => {
+                force_pub = Some(k);
+                10
             }
             Some(Sc::Restart(c)) => {
                 force_clear = Some(c);
@@ -487,7 +524,8 @@ fn run_history(rng: &mut Rng, mode: &str, _k: usize) -> String {
                 if run_parked && h.gates.parked_kind.load(Ordering::SeqCst) == 3 {
                     continue;
                 }
-                if let Some((&w, _)) = h.writers.iter().nth(rng.below(h.writers.len().max(1) as u64) as usize) {
+                let which = force_pub.take().unwrap_or_else(|| rng.below(h.writers.len().max(1) as u64) as usize);
+                if let Some((&w, _)) = h.writers.iter().nth(which) {
                     let wr = h.writers.remove(&w).unwrap();
                     wr.tx.send(()).unwrap();
                     let idx = wr.handle.join().unwrap();
